@@ -149,6 +149,7 @@ class Module:
         self.consts = {}           # resolved promoted const name -> Func
         self.by_pretty = {}        # callee-style name -> [Func]
         self._src_cache = {}
+        self._norm = None
         lines = text.split('\n')
         i = 0; n = len(lines)
         while i < n:
@@ -237,6 +238,13 @@ class Module:
         key = strip_generics(callee)
         r = self.by_pretty.get(key)
         if r: return r
+        # module paths in front of type names (`varpulis_core::Value::as_bool`, `<varpulis_core::Value as PartialEq>::eq`)
+        nk = norm_path(key)
+        if self._norm is None:
+            self._norm = {}
+            for k, v in self.by_pretty.items(): self._norm.setdefault(norm_path(k), []).extend(v)
+        r = self._norm.get(nk)
+        if r: return r
         # callee printed with a module path (free fn in other module) or without one
         tail = key.split('::')[-1]
         if '::' not in key or re.match(r'^(?:[a-z_0-9]+::)+[a-z_0-9]+$', key):
@@ -255,6 +263,12 @@ class Module:
         tail = '::'.join(key.split('::')[-3:])
         c = [f for k, f in self.consts.items() if strip_generics(k).endswith(tail)]
         return c[0] if len(c) == 1 else None
+
+
+def norm_path(p):
+    """drop lower-case module prefixes in front of capitalised path segments and lifetimes in generic lists"""
+    p = re.sub(r"<'\w+>", '', p)
+    return re.sub(r'\b(?:[a-z_][a-z_0-9]*::)+(?=[A-Z])', '', p)
 
 
 def _short_ty(t):
